@@ -194,11 +194,11 @@ package proxy
 //@   let O = old(proxy.RouteConfig.Options)
 //@   let Df = defaultOpts
 //@   let skip = (O != nil && len(old(O.SkipAuthRegex)) > 0) ? old(O.SkipAuthRegex) : old(Df.SkipAuthRegex)
-//@   ensures [C14] groups_own_or_default: result == nil && Df != nil ==> eqList(proxy.AllowedGroups, (O != nil && len(old(O.AllowedGroups)) > 0) ? old(O.AllowedGroups) : old(Df.AllowedGroups))
-//@   ensures [C14] domains_own_or_default: result == nil && Df != nil ==> eqList(proxy.AllowedEmailDomains, (O != nil && len(old(O.AllowedEmailDomains)) > 0) ? old(O.AllowedEmailDomains) : old(Df.AllowedEmailDomains))
-//@   ensures [C14] addresses_own_or_default: result == nil && Df != nil ==> eqList(proxy.AllowedEmailAddresses, (O != nil && len(old(O.AllowedEmailAddresses)) > 0) ? old(O.AllowedEmailAddresses) : old(Df.AllowedEmailAddresses))
+//@   ensures [C14 C11] groups_own_or_default: result == nil && Df != nil ==> eqList(proxy.AllowedGroups, (O != nil && len(old(O.AllowedGroups)) > 0) ? old(O.AllowedGroups) : old(Df.AllowedGroups))
+//@   ensures [C14 C11] domains_own_or_default: result == nil && Df != nil ==> eqList(proxy.AllowedEmailDomains, (O != nil && len(old(O.AllowedEmailDomains)) > 0) ? old(O.AllowedEmailDomains) : old(Df.AllowedEmailDomains))
+//@   ensures [C14 C11] addresses_own_or_default: result == nil && Df != nil ==> eqList(proxy.AllowedEmailAddresses, (O != nil && len(old(O.AllowedEmailAddresses)) > 0) ? old(O.AllowedEmailAddresses) : old(Df.AllowedEmailAddresses))
 //@   ensures [C14] slug_own_or_default: result == nil && Df != nil ==> proxy.ProviderSlug == ((O != nil && old(O.ProviderSlug) != "") ? old(O.ProviderSlug) : old(Df.ProviderSlug))
-//@   ensures [C14] deployment_defaults_are_not_changed: Df != nil ==> arrof(Df.AllowedGroups) == old(arrof(Df.AllowedGroups)) && len(Df.AllowedGroups) == old(len(Df.AllowedGroups)) && arrof(Df.AllowedEmailDomains) == old(arrof(Df.AllowedEmailDomains)) && len(Df.AllowedEmailDomains) == old(len(Df.AllowedEmailDomains)) && arrof(Df.AllowedEmailAddresses) == old(arrof(Df.AllowedEmailAddresses)) && len(Df.AllowedEmailAddresses) == old(len(Df.AllowedEmailAddresses)) && arrof(Df.SkipAuthRegex) == old(arrof(Df.SkipAuthRegex)) && len(Df.SkipAuthRegex) == old(len(Df.SkipAuthRegex)) && Df.ProviderSlug == old(Df.ProviderSlug) && Df.SkipAuthPreflight == old(Df.SkipAuthPreflight) && Df.PassAccessToken == old(Df.PassAccessToken) && Df.SkipRequestSigning == old(Df.SkipRequestSigning)
+//@   ensures [C14 C11] deployment_defaults_are_not_changed: Df != nil ==> arrof(Df.AllowedGroups) == old(arrof(Df.AllowedGroups)) && len(Df.AllowedGroups) == old(len(Df.AllowedGroups)) && arrof(Df.AllowedEmailDomains) == old(arrof(Df.AllowedEmailDomains)) && len(Df.AllowedEmailDomains) == old(len(Df.AllowedEmailDomains)) && arrof(Df.AllowedEmailAddresses) == old(arrof(Df.AllowedEmailAddresses)) && len(Df.AllowedEmailAddresses) == old(len(Df.AllowedEmailAddresses)) && arrof(Df.SkipAuthRegex) == old(arrof(Df.SkipAuthRegex)) && len(Df.SkipAuthRegex) == old(len(Df.SkipAuthRegex)) && Df.ProviderSlug == old(Df.ProviderSlug) && Df.SkipAuthPreflight == old(Df.SkipAuthPreflight) && Df.PassAccessToken == old(Df.PassAccessToken) && Df.SkipRequestSigning == old(Df.SkipRequestSigning)
 //@   ensures [C14] every_pattern_compiled: result == nil && Df != nil ==> len(proxy.SkipAuthCompiledRegex) == old(len(proxy.SkipAuthCompiledRegex)) + len(skip)
 //@   ensures [C14] patterns_in_order: result == nil && Df != nil && old(len(proxy.SkipAuthCompiledRegex)) == 0 ==> forall i :: 0 <= i && i < len(proxy.SkipAuthCompiledRegex) ==> proxy.SkipAuthCompiledRegex[i] != nil && regexSource(proxy.SkipAuthCompiledRegex[i]) == skip[i]
 //@   loop 1
@@ -397,7 +397,7 @@ package proxy
 // replace what an earlier one set, never add to it.)
 //@ func SetValidators$1(op *OAuthProxy) error
 //@   modifies op.Validators
-//@   ensures [C11 C01 C06] validators_are_exactly_the_given_ones: result == nil && arrof(op.Validators) == arrof(validators) && len(op.Validators) == len(validators)
+//@   ensures [C11 C01 C06 C13] validators_are_exactly_the_given_ones: result == nil && arrof(op.Validators) == arrof(validators) && len(op.Validators) == len(validators)
 
 //@ func SetProvider$1(op *OAuthProxy) error
 //@   modifies op.provider
